@@ -83,6 +83,17 @@ func decodeMilliSatoshis(r io.Reader, val interface{}, buf *[8]byte,
 			return err
 		}
 
+		// DBigSize reads one BigSize whatever the length of the record
+		// is. The value (which is only accepted in its minimal
+		// encoding) must take up exactly the l bytes of the record,
+		// otherwise the rest of the stream would be parsed from the
+		// wrong offset.
+		if size := tlv.VarIntSize(bigSize); size != l {
+			return tlv.NewTypeForDecodingErr(
+				val, "lnwire.MilliSatoshi", l, size,
+			)
+		}
+
 		*v = MilliSatoshi(bigSize)
 
 		return nil
